@@ -77,9 +77,9 @@ class P(Prop):
                 vs.append(C.fl(base + d))
             for d in (-3, -2, -1, 0, 1, 2, 3):
                 vs.append(C.fl(base + d))
-        n = 160 if tier == "quick" else 2600
+        n = 200 if tier == "quick" else 3000
         for i in range(n):
-            x = -40 + 80.0 * i / n + rng.uniform(0, 80.0 / n)
+            x = -46 + 92.0 * i / n + rng.uniform(0, 92.0 / n)
             vs.append(math.exp(-x))
         for kexp in (1, 2, 3, 10, 50, 100, 300, 500, 700, 900, 1000, 1020):
             vs += [2.0 ** kexp, 2.0 ** -kexp]
